@@ -89,6 +89,12 @@ def _cases(shard):
                   st.booleans(), st.booleans(), st.lists(st.integers(-12, 12), min_size=1, max_size=5)),
                op('view', st.sampled_from(['keys'] + (['values', 'items'] if is_map else [])), st.none(), st.none(),
                   st.booleans(), st.booleans(), st.lists(st.sampled_from([-1, -2, -3, -5, 0, 4]), min_size=2, max_size=4)),
+               # a range from the LAST key of one leaf to the FIRST key of a later one: the offset of the low end in its
+               # leaf is larger than that of the high end in its leaf
+               op('view', st.sampled_from(['keys'] + (['values', 'items'] if is_map else [])),
+                  st.builds(lambda i: {'edge': i, 'last': True}, st.integers(0, 6)),
+                  st.builds(lambda i: {'edge': i, 'last': False}, st.integers(0, 6)),
+                  st.booleans(), st.booleans(), st.lists(st.integers(-4, 4), min_size=1, max_size=3)),
                op('minKey', B), op('maxKey', B), op('clear')]
         OK_ = st.lists(st.sampled_from(dom), max_size=8)
         okinds = st.sampled_from(['Set', 'TreeSet', 'Bucket', 'BTree'])
@@ -688,7 +694,7 @@ def _enum(shard, ctx):
     for ti in range(shard['trees']):
         idx = shard['i'] * 100 + ti + ctx.seed * 7
         fam = OFAMS[idx % len(OFAMS)]
-        kind = ['BTree', 'TreeSet'][idx % 2]
+        kind = ['BTree', 'TreeSet'][(shard['i'] + ti) % 2]      # both kinds in every run, whatever the seed
         sizes = [[2, 2], [3, 2], [2, 3], [3, 3]][(idx // 2) % 4]
         nkeys = 9 + idx % 9
         base = list(range(0, nkeys * 2, 2))
